@@ -15,7 +15,15 @@ n=s.count(old)
 if n==0:
     print("MUTATION TARGET NOT FOUND"); sys.exit(3)
 import os
-open(p,"w").write(s.replace(old,new) if os.environ.get("MUT_ALL") else s.replace(old,new,1))
+nth=int(os.environ.get("MUT_NTH","0"))
+if os.environ.get("MUT_ALL"):
+    out=s.replace(old,new)
+elif nth:
+    parts=s.split(old)
+    out=old.join(parts[:nth])+new+old.join(parts[nth:])
+else:
+    out=s.replace(old,new,1)
+open(p,"w").write(out)
 print(f"mutated {p}: {n} occurrence(s), first replaced")
 PY
 [ $? -eq 0 ] || exit 3
